@@ -102,6 +102,13 @@ func (c *Ctx) rewriteOfE(v ssa.Value, e *env) (inner ssa.Value, ie *env, desc st
 			cur, ce = c.resolveE(call.Call.Args[0], ce)
 			continue
 		}
+		if g := call.Call.StaticCallee(); g != nil && inModule(g) {
+			if text, bp, ok := c.byteMapCall(call, ce); ok {
+				pairs = append(append([][2]string(nil), bp...), pairs...)
+				cur, ce = c.resolveE(text, ce)
+				continue
+			}
+		}
 		if name == "(*strings.Replacer).Replace" && len(call.Call.Args) == 2 {
 			rp := c.replacerPairs(c.resolve(call.Call.Args[0], ce))
 			if rp == nil {
@@ -118,7 +125,7 @@ func (c *Ctx) rewriteOfE(v ssa.Value, e *env) (inner ssa.Value, ie *env, desc st
 	}
 	from := map[string]bool{}
 	for _, p := range pairs {
-		if len(p[0]) != 1 || len(p[1]) != 1 || from[p[0]] {
+		if len(p[0]) != 1 || len(p[1]) > 1 || from[p[0]] {
 			return nil, nil, "", false
 		}
 		from[p[0]] = true
